@@ -83,6 +83,11 @@ class XARecord:
                 continue
 
             if unused != b'\x00\x00\x00\x00\x00':
+                if offset != 0:
+                    # The padded location is only a heuristic; bytes there that
+                    # merely look like the signature (e.g. part of a Rock Ridge
+                    # name) are not an XA record.
+                    continue
                 raise pycdlibexception.PyCdlibInvalidISO('Unused fields should be 0')
 
             self._pad_size = offset
